@@ -353,6 +353,87 @@ fn low_order_recipient(ctx: &Ctx) {
             }
         }
     }
+    // decoy entries whose PublicKey TEXT is a near twin of the sender's encoded key (letter case swapped at one or
+    // all positions, one character replaced, same first 32 bytes region with a recomputed checksum over other
+    // bytes): such an entry decodes to 36 bytes, so the parser loads it, but it holds another key. The sender may
+    // be named only through an entry whose decoded key IS the authenticated sender key; with the real entry absent
+    // the key must be reported as unknown (a tool that refuses such a keyring outright is fine as well).
+    {
+        let wd = WorkDir::new("c05twin");
+        let rounds = ctx.tier.pick(3, 20);
+        for round in 0..rounds {
+            let alice = Ident::new("alice", "apw", &mut rng);
+            let bob = Ident::new("bob", "bpw", &mut rng);
+            let text: Vec<char> = alice.encoded_pk.chars().collect();
+            let letters: Vec<usize> = (0..text.len()).filter(|&i| text[i].is_ascii_alphabetic()).collect();
+            let swap = |idx: &[usize]| -> String {
+                let mut t = text.clone();
+                for &i in idx {
+                    t[i] = if t[i].is_ascii_lowercase() { t[i].to_ascii_uppercase() } else { t[i].to_ascii_lowercase() };
+                }
+                t.into_iter().collect()
+            };
+            let mut decoys: Vec<(String, String)> = Vec::new();
+            decoys.push(("all letters case-swapped".into(), swap(&letters)));
+            for k in 0..4 {
+                let i = letters[(rng.below(letters.len() as u64)) as usize];
+                decoys.push((format!("case of character {} swapped", i), swap(&[i])));
+                let _ = k;
+            }
+            decoys.push(("first letter case-swapped".into(), swap(&letters[..1])));
+            decoys.push(("last letter case-swapped".into(), swap(&letters[letters.len() - 1..])));
+            // one character replaced by its alphabet neighbour
+            {
+                let i = rng.below(text.len() as u64) as usize;
+                let mut t = text.clone();
+                t[i] = if t[i] == 'A' { 'B' } else { 'A' };
+                decoys.push((format!("character {} replaced", i), t.into_iter().collect()));
+            }
+            // a well-formed entry (valid checksum) for the key obtained from the case-swapped bytes
+            if let Some(blob) = crate::util::unb64(&swap(&letters)) {
+                if blob.len() == 36 {
+                    let mut k = [0u8; 32];
+                    k.copy_from_slice(&blob[..32]);
+                    decoys.push(("case-swapped key bytes with a recomputed checksum".into(), refspec::encode_pk(&k)));
+                }
+            }
+            let f = refspec::encode_key_file(&alice.sk, &alice.pk, &bob.pk, &rng.arr32(), &rng.arr32(), b"twin keys", &[9]).unwrap();
+            wd.write("t.ktl", &f);
+            for (di, (what, dtext)) in decoys.iter().enumerate() {
+                if *dtext == alice.encoded_pk {
+                    continue;
+                }
+                let decoy = format!("[Key]\nName = mallory\nPublicKey = {}\n", dtext);
+                for (layout, kr) in [
+                    ("decoy before the sender", format!("{}\n{}\n{}", decoy, alice.entry(false), bob.entry(true))),
+                    ("decoy after the sender", format!("{}\n{}\n{}", bob.entry(true), alice.entry(false), decoy)),
+                    ("sender absent", format!("{}\n{}", decoy, bob.entry(true))),
+                ] {
+                    wd.write("twin.txt", kr.as_bytes());
+                    let o = Cmd::new(&wd.path, &["decrypt", "t.ktl", "-t", "bob", "-k", "twin.txt", "--env-pass"]).pass("bpw").run();
+                    ctx.eval();
+                    let err = o.stderr_s();
+                    let named: Option<String> = err.lines().find_map(|l| l.split("File from: ").nth(1)).map(|x| x.trim().to_string());
+                    let case = || json!({"decoy": what, "decoy_public_key_text": dtext, "sender_public_key_text": alice.encoded_pk, "layout": layout, "exit": o.exit.describe(), "stderr": err});
+                    match &o.exit {
+                        Exit::Timeout => ctx.inconclusive("C05 cli: timeout"),
+                        Exit::Code(1) if o.has_error_line() => {
+                            ctx.seen("cli: keyring with a near-twin key text refused");
+                            ctx.distinct(&format!("twinkey|{}|{}|{}|refused", round, di, layout));
+                        }
+                        Exit::Code(0) if named.as_deref() == Some("mallory") => ctx.violation("C05:cli:sender-reported-under-a-name-whose-key-did-not-take-part:near-twin-key-text", case()),
+                        Exit::Code(0) if layout != "sender absent" && named.as_deref() != Some("alice") => ctx.violation("C05:cli:listed-sender-not-named:near-twin-key-text", case()),
+                        Exit::Code(0) if layout == "sender absent" && (named.is_some() || !err.contains(&alice.encoded_pk)) => ctx.violation("C05:cli:unlisted-sender-reported-under-a-keyring-name", case()),
+                        Exit::Code(0) => {
+                            ctx.seen("cli: near-twin key text never names the sender");
+                            ctx.distinct(&format!("twinkey|{}|{}|{}", round, di, layout));
+                        }
+                        other => ctx.violation(&format!("C05:cli:near-twin-key-text:{}", other.describe()), case()),
+                    }
+                }
+            }
+        }
+    }
     // sanity of the oracle's low-order list: each is really low order for a clamped scalar
     for lo in &low {
         if x25519_raw(&rng.arr32(), lo) != [0u8; 32] {
